@@ -189,12 +189,12 @@ def vr_switch_obl(direction, timeout=600):
     instr = []
     for r in VR_SWITCH_REPL:
         instr += ['--replace-calls', r]
-    return Obl(name='vr_stage_switch_%s' % ('up' if direction else 'down'), src='vr_step.c', defs=['-DVF_OP=3', '-DVF_DIR=%d' % direction], unwind=300, timeout=timeout,
+    return Obl(name='vr_stage_switch_%s' % ('down', 'up', 'up_0_to_1', 'down_1_to_0')[direction], src='vr_step.c', defs=['-DVF_OP=3', '-DVF_DIR=%d' % direction], unwind=300, timeout=timeout,
                ndebug=False, instrument=instr, extra=['--paths', 'lifo'], slice=False, checks='full',
                desc='vr32.c vr_process: one real call in which the slewing ratio crosses the octave boundary %s (stage %s): after the switch the fade-in and '
                     'fade-out streams run at the same instantaneous ratio, slew at the same rate and read the same input instant; no undefined shift / overflow in the rescaling'
-                    % (('upwards', '-1 -> 0') if direction else ('downwards', '0 -> -1')),
-               bounds='engine state constructed directly (one decimation stage; 272 buffered input samples); step anywhere in the octave being left, |step_step| < 2^20, '
+                    % (('downwards', '0 -> -1'), ('upwards', '-1 -> 0'), ('upwards at ratio 2', '0 -> 1'), ('downwards at ratio 2', '1 -> 0'))[direction],
+               bounds='engine state constructed directly (one or two decimation stages; 272 buffered input samples); step anywhere in the octave being left, |step_step| < 2^20, '
                       'position < 8 samples, remaining slew length 1000; cbmc --paths lifo (every path decided by the SAT solver)',
                stubs=['goto-instrument --replace-calls: the four resampling kernels produce no frame in this call (the state asserted is the one the switch block leaves); '
                       'half-band FIR dot products return 0 (data only)', 'coefficient tables not initialised (data only)'],
